@@ -122,6 +122,7 @@ theorem doSendRaw_guard (s : St) (o : Outcome) : (doSendRaw s o).guardClosed = s
 theorem step0_guard (s : St) (op : Op) : (step0 s op).guardClosed = s.guardClosed := by
   cases op with
   | shutdown => rfl
+  | close => rfl
   | send d => rfl
   | pump o => exact doSend_guard s o
   | sendFast d o =>
@@ -148,6 +149,12 @@ theorem step0_inv (s : St) (op : Op) (h : Inv s) (hg : s.guardClosed = true) : I
     refine ⟨hs, ho, hq, hd, h1, fun _ => rfl, ?_⟩
     intro _ hpend hemp hcl
     exact hh (hp hpend) hpend hemp hcl
+  | close =>
+    obtain ⟨hs, ho, hq, hd, h1, hp, hh⟩ := h
+    refine ⟨hs, ?_, hq, hd, h1, hp, ?_⟩
+    · show s.closeEvents + (if s.closed then 0 else 1) = (if true = true then 1 else 0)
+      rw [ho]; cases s.closed <;> rfl
+    · intro _ _ _ hcl; exact absurd hcl (by simp [step0, St.fail])
   | send d =>
     obtain ⟨hs, ho, hq, hd, h1, hp, hh⟩ := h
     refine ⟨by simp [step0, ← hs, List.append_assoc], ho, hq, hd, h1, hp, ?_⟩
@@ -776,6 +783,7 @@ theorem step_hist (s : St) (op : Op) :
      ((∃ d o, op = .sendFast d o) ∧ (step0 s op).queued = s.queued ∧ (step0 s op).dropped = s.dropped + 1))
   cases op with
   | shutdown => exact ⟨⟨[], by simp [step0]⟩, .inl ⟨by simp [step0, Op.payload], rfl⟩⟩
+  | close => exact ⟨⟨[], by simp [step0, St.fail]⟩, .inl ⟨by simp [step0, St.fail, Op.payload], rfl⟩⟩
   | send d => exact ⟨⟨[], by simp [step0]⟩, .inl ⟨rfl, rfl⟩⟩
   | pump o =>
     obtain ⟨a, q, d⟩ := doSend_hist s o
